@@ -160,19 +160,24 @@ def dump_tv(path, cases, il_subs, c_subs, devsets, extra_known=(), extra_allowed
                "devsets": devsets, "known": known, "allowed": allowed}, open(path, "w"))
 
 
+BATCH = 1500   # cases per TLC run: JsonDeserialize of the observation file is single-threaded, so huge files starve the workers
+
+
 def run_tv(cases, il_subs, c_subs, devsets, ninputs, seed, workers=None, timeout=3600, static=True):
-    """Runs spec/TV.tla (and spec/Static.tla) over the cases.  Returns (tv result, static result)"""
+    """Runs spec/TV.tla (and spec/Static.tla) over the cases, in batches.  Returns (tv result, static result)"""
     import shutil
-    d = tempfile.mkdtemp(prefix="verif_tv_")
-    try:
-        f = os.path.join(d, "tv.json")
-        dump_tv(f, cases, il_subs, c_subs, devsets)
-        r = tlc.run("TV.tla", "TV.cfg", env={"TV_FILE": f, "TV_SEED": seed, "TV_NB": ninputs},
-                    workers=workers, timeout=timeout, tags=("TVREPORT",))
-        s = None
-        if static:
-            s = tlc.run("Static.tla", "Static.cfg", env={"TV_FILE": f}, workers=workers, timeout=timeout,
-                        tags=("STREPORT",))
-        return r, s
-    finally:
-        shutil.rmtree(d, ignore_errors=True)
+    rs, ss = [], []
+    for b in range(0, max(1, len(cases)), BATCH):
+        chunk = cases[b:b + BATCH]
+        d = tempfile.mkdtemp(prefix="verif_tv_")
+        try:
+            f = os.path.join(d, "tv.json")
+            dump_tv(f, chunk, il_subs, c_subs, devsets)
+            rs.append(tlc.run("TV.tla", "TV.cfg", env={"TV_FILE": f, "TV_SEED": seed, "TV_NB": ninputs},
+                              workers=workers, timeout=timeout, tags=("TVREPORT",)))
+            if static:
+                ss.append(tlc.run("Static.tla", "Static.cfg", env={"TV_FILE": f}, workers=workers, timeout=timeout,
+                                  tags=("STREPORT",)))
+        finally:
+            shutil.rmtree(d, ignore_errors=True)
+    return tlc.merge(rs), (tlc.merge(ss) if static else None)
